@@ -642,7 +642,12 @@ func propSpecs() map[string]PropSpec {
 		Plan: withE2E(withConc(seqPlan("C10", 48, 600), "C10", 16, 150, false), "C10", []string{"clean"}, 90, 6)})
 	add(PropSpec{ID: "C12", Level: "exploration", Classes: []string{"content", "crash"},
 		Rule: "block-recycling sequences on small disks (pattern f(write id, offset) never zero), shrink to aligned/unaligned sizes and regrow, free-space sweep at the end; every READ and whole-tree dump compared with the reference; distinct = distinct (procedure, outcome, argument class) triples",
-		Plan: withCrash(seqPlan("C12", 90, 900), "C12", 4, 40)})
+		Plan: func(tier string, seed uint64) []Job {
+			js := withCrash(seqPlan("C12", 90, 900), "C12", 4, 40)(tier, seed)
+			// the only free inode number cycling through directory / symbolic link /
+			// regular file with warm caches: a new file must start empty
+			return append(js, Job{Engine: "inotable", Profile: "C12", Seed: seed, Case: 0})
+		}})
 	add(PropSpec{ID: "C01", Level: "fault_enumeration", Classes: []string{"crash"},
 		Rule: "each seeded workload (all mutating RPCs, three stability levels, multi-block writes, truncations, big-file removal) is recorded on the crash disk; EVERY prefix cut of its trace, one (thorough: three) lossy image(s) per cut with un-barriered writes lost/reordered, and cuts of sampled recovery runs (depth 2) are recovered by the real MakeNfs; the recovered tree must equal reference state S_j for some lo<=j<=hi, handles preserved, fsck clean, continuation workload in lock-step with S_j; concurrent traces (2-4 clients confined to their own directories, journal-rejected requests next to them): every client's subtree a prefix state of its own sequence within [durable, issued], combination consistent with real time; directed: each kind of stable request parked at its pre-commit/first-release/post-commit hook while a journal-rejected and an unstable request run, image at the instant of its reply recovered; distinct = distinct (recovered tree, on-disk state, lo, hi) with lo<hi (an operation in flight or an unstable suffix)",
 		Plan: func(tier string, seed uint64) []Job {
@@ -705,7 +710,15 @@ func propSpecs() map[string]PropSpec {
 		Assume: []string{"no gate locks: every other mutex is a leaf taken while inode locks are held (true for this code base)", "fresh (just allocated, free) inodes are exempt from the order: nobody can hold a free inode while waiting for another lock"}})
 	add(PropSpec{ID: "C14", Level: "exploration", Classes: []string{"race", "crash", "hang"},
 		Rule: "the harness is built with -race (which also instruments /repo and GoJournal) and runs the conflicting concurrent histories of C03 (same names, same files, shrinker active, READDIRPLUS during updates, restarts, direct and rpc adapters) with the lock monitor and seeded yields on; every report of the race detector with a repository or GoJournal frame is a violation (de-duplicated by the pair of first repository frames); distinct = distinct interleaving fingerprints, counted only when locks were contended",
-		Plan: withConc(noJobs, "C14", 32, 900, true),
+		Plan: func(tier string, seed uint64) []Job {
+			js := withConc(noJobs, "C14", 32, 900, true)(tier, seed)
+			// directed: one request parked inside a disk read (holding its lock and
+			// cache slot) while more inodes than the cache holds pass through it
+			for i := 0; i < 3; i++ {
+				js = append(js, Job{Engine: "dgate", Profile: "C14", Seed: seed, Case: i, Race: true})
+			}
+			return js
+		},
 		Assume: []string{"the race detector only observes the interleavings that were executed", "GORACE=halt_on_error=0: reports are collected from the log files, exit codes are not trusted"}})
 	add(PropSpec{ID: "C15", Level: "exploration", Exhaustive: true, Classes: []string{"size", "crash"},
 		Rule: "EXHAUSTIVE over the stated ranges: every disk size from the smallest one MakeNfs accepts (found by trying downwards) for 400 (thorough: 3000) consecutive sizes and every size within +-40 of 32768*k (k=1,2,3) is formatted by the real MakeNfs; per size: regions ordered/disjoint/inside the disk, fresh bitmaps mark exactly the non-data blocks + the root directory and inodes 0,1, allocators agree, root usable; sampled sizes (thorough: all of the dense range) are filled to NOSPC (free must reach 0, every data block owned once, none outside) and emptied again (free = initial); distinct = distinct (bitmap blocks, size mod 8, position relative to 32768) classes",
